@@ -43,6 +43,12 @@ class C04(Prop):
                     'ocaml/hist_common.ml prints the model state in the same text form']
 
     def generate(self, seed, tier, scale=1):
+        cases = self._generate(seed, tier, scale)
+        if scale == 1:
+            self._routes = histlib.count_routes(self.corpus() + cases)
+        return cases
+
+    def _generate(self, seed, tier, scale=1):
         rnd = random.Random(seed * 15485863 + 4)
         if tier == 'quick':
             cases = histlib.gen_c04_cases(rnd, 22 * scale, 6)
@@ -58,6 +64,13 @@ class C04(Prop):
 
     def corpus(self):
         return histlib.load_corpus(self.id)
+
+    def extra_checks(self, ctx):
+        # which further public entry points (notes/route-audit.md) this run went through, and how many script lines each got
+        routes = getattr(self, '_routes', {})
+        ctx['ev']['entry_points'] = {k: v for k, v in histlib.ROUTES.items() if any(r == k or r.startswith(k + ' ') for r in routes)}
+        ctx['ev']['lines_per_route'] = routes
+        return []
 
     def compare(self, a, b):
         return histlib.compare(a, b)
